@@ -562,6 +562,12 @@ def _fn_extent(text, e):
     start = text.rfind('\n', 0, mk) + 1
     b = text.find(body, start)
     if b < 0:
+        # already quarantined: its body is the stub
+        stub = '{ unimplemented!() } // @QUARANTINED'
+        q = text.find(stub, start)
+        nxt = text.find('// @FNOBL', mk + 5)
+        if q >= 0 and (nxt < 0 or q < nxt):
+            return start, q, q + len(stub)
         return None
     return start, b, b + len(body)
 
@@ -636,7 +642,12 @@ def _quarantine_apply(out, hit, reasons):
     for key, (x, e, msg) in sorted(hit.items(), key=lambda kv: -kv[1][0][0]):
         x2 = _fn_extent(out, e) or x
         if '@QUARANTINED' in out[x2[0]:x2[2]]:
-            return None
+            # second level: even the CONTRACT of this function cannot be compiled on this tree (it names a field / type the edit changed):
+            # the function is removed altogether; whoever calls it fails to compile next round and is quarantined in turn
+            if key.startswith('helper:'):
+                return None
+            out = out[:x2[0]] + '// (function %s removed: its contract cannot be stated on this tree) @REMOVED' % key + out[x2[2]:]
+            continue
         out = out[:x2[1]] + '{ unimplemented!() } // @QUARANTINED' + out[x2[2]:]
         # an inherent method / free function is also RENAMED: whoever calls it then fails to compile and is quarantined in turn (found by the
         # compiler, so exactly the callers and nobody else); methods of trait impls keep their name (the trait fixes it)
@@ -701,6 +712,7 @@ def _called_name(e):
 def verus_unit_quarantining(unit, ctx, workdir, text, tier):
     original = text
     quarantined = {}
+    removed = set()
     r = None
     for _round in range(12):
         try:
@@ -708,12 +720,17 @@ def verus_unit_quarantining(unit, ctx, workdir, text, tier):
             break
         except NotVerifiable as err:
             q = _quarantine(text, ctx, err.errors)
-            if not q or not q[1] or any(k in quarantined for k in q[1]):
+            if not q or not q[1] or any(k in removed or (k in quarantined and k.startswith('helper:')) for k in q[1]):
                 q = _escalate(text, ctx, err.errors, quarantined)
                 if not q or not q[1]:
                     raise
             text = q[0]
+            for k in q[1]:
+                if k in quarantined and ('(function %s removed:' % k) in text:
+                    removed.add(k)
             for k, why in q[1].items():
+                if k in quarantined:
+                    continue
                 mm = re.search(r'no (?:method|function or associated item) named `(\w+)`', why or '')
                 if mm and ('fn %s__unverified' % mm.group(1)) in text:
                     why = 'relies on the contract of `%s`, which could not be verified on this tree' % mm.group(1)
@@ -735,6 +752,9 @@ def verus_unit_quarantining(unit, ctx, workdir, text, tier):
     # (a quarantined auto-included helper has no contract to rely on: its callers are verified against an arbitrary result)
     names = {k: _called_name(e) for e in ctx.extracted for k in [e.key] if k in quarantined and not k.startswith('helper:')}
     names = {k: nm for k, nm in names.items() if nm and ('fn %s__unverified' % nm) not in text}      # renamed ones: their callers were found by the compiler
+    # what is left are methods of TRAIT impls (their name is fixed by the trait): a caller that goes through the trait relies on the trait's
+    # contract, not on this impl's, so nothing is propagated for them
+    names = {}
     dependent = {}
     changed = True
     bodies = {e.key: (getattr(e, 'body_final', None) or '') for e in ctx.extracted if getattr(e, 'sig_final', None)}
